@@ -64,7 +64,20 @@ fn b64_ref(data: &[u8]) -> String {
 
 fn case_text(t: &mut Tape, st: &mut Stats) -> Verdict {
     let mut ctx = sdk_context();
-    let text = arb_text(t, 12);
+    let mut text = arb_text(t, 12);
+    if t.chance(1, 60) {
+        // a long text: a short unit (or a single character) repeated up to 4 KiB .. 70 KiB, every length modulo 3
+        let unit = if text.is_empty() || t.flip() { t.pick(&["a", "é", "日", "😀", "ab\n"]).to_string() } else { text.clone() };
+        let span = if t.chance(1, 4) { 66_000 } else { 5_000 };
+        let target = 4000 + t.below(span);
+        let mut long = String::with_capacity(target + unit.len());
+        while long.len() < target {
+            long.push_str(&unit);
+        }
+        long.push_str(&"x".repeat(t.below(3)));
+        text = long;
+        st.class("text-longer-than-4096-bytes");
+    }
     let before = handles(&ctx);
     ctx.variables.insert("v".into(), text.clone());
     let nt = text.chars().any(|c| c.len_utf8() > 1 || c.is_control());
@@ -424,13 +437,13 @@ fn case_properties(t: &mut Tape, st: &mut Stats) -> Verdict {
 pub fn property() -> Property {
     Property {
         id: "C17",
-        rule: "(text) arbitrary Unicode texts incl. empty, NUL, controls, BOM, astral, delivered through a variable: bytes_to_string(string_to_bytes(t)) == t, base64_encode equals an independent reference encoder, bytes_to_string(base64_decode(base64_encode(..))) == t, handles released and the handle table back to its size; (hex) u64 edges and random values: hex_encode equals a reference, hex_decode(hex_encode(n)) == n; (json) documents from a grammar (depth <= 4/6, width <= 5/8, string/integer/edge-integer/dyadic-decimal/bool/null leaves, hazardous keys) in compact or pretty form: json_encode --collection(json_parse --collection d) equals normalise(d) as a JSON value (scalars to strings, nulls dropped), release -r returns the handle table to its size - one case in three parses into an output variable that still holds the collection of an earlier parse kept under another name, which must still encode to its own document afterwards; (properties) maps with keys/values over '=', ':', '#', '!', spaces, LF, CR, tab, form feed, backslash, quotes, Latin-1 range, CJK, astral and random characters: map_load_properties(map_to_properties(m)) into a fresh map (one case in four: a map into which the load of a malformed text was refused just before) has the same keys and values. Non-trivial: text with a multi-byte or control character / JSON of depth >= 2 with a null / map with a non-alphanumeric character; distinct by input",
+        rule: "(text) arbitrary Unicode texts incl. empty, NUL, controls, BOM, astral, and - one case in sixty - texts of 4 KiB .. 70 KiB, delivered through a variable: bytes_to_string(string_to_bytes(t)) == t, base64_encode equals an independent reference encoder, bytes_to_string(base64_decode(base64_encode(..))) == t, handles released and the handle table back to its size; (hex) u64 edges and random values: hex_encode equals a reference, hex_decode(hex_encode(n)) == n; (json) documents from a grammar (depth <= 4/6, width <= 5/8, string/integer/edge-integer/dyadic-decimal/bool/null leaves, hazardous keys) in compact or pretty form: json_encode --collection(json_parse --collection d) equals normalise(d) as a JSON value (scalars to strings, nulls dropped), release -r returns the handle table to its size - one case in three parses into an output variable that still holds the collection of an earlier parse kept under another name, which must still encode to its own document afterwards; (properties) maps with keys/values over '=', ':', '#', '!', spaces, LF, CR, tab, form feed, backslash, quotes, Latin-1 range, CJK, astral and random characters: map_load_properties(map_to_properties(m)) into a fresh map (one case in four: a map into which the load of a malformed text was refused just before) has the same keys and values. Non-trivial: text with a multi-byte or control character / JSON of depth >= 2 with a null / map with a non-alphanumeric character; distinct by input",
         assumptions: &[
             "a root-level null document and string leaves spelled like handles are not generated",
             "JSON numbers are generated in serde_json's canonical spelling",
         ],
         sections: vec![
-            Section { name: "text", plan: |t| match t { Tier::Quick => Plan::Random { cases: 100_000, max_len: 60 }, Tier::Thorough => Plan::Random { cases: 8_000_000, max_len: 100 } }, case: case_text, min_classes: &[("empty-text", 1000), ("text-with-nul", 1000), ("text-starting-with-bom", 100)] },
+            Section { name: "text", plan: |t| match t { Tier::Quick => Plan::Random { cases: 100_000, max_len: 60 }, Tier::Thorough => Plan::Random { cases: 8_000_000, max_len: 100 } }, case: case_text, min_classes: &[("empty-text", 1000), ("text-with-nul", 1000), ("text-starting-with-bom", 100), ("text-longer-than-4096-bytes", 800)] },
             Section { name: "hex", plan: |t| match t { Tier::Quick => Plan::Random { cases: 40_000, max_len: 6 }, Tier::Thorough => Plan::Random { cases: 2_000_000, max_len: 6 } }, case: case_hex, min_classes: &[] },
             Section { name: "json", plan: |t| match t { Tier::Quick => Plan::Random { cases: 60_000, max_len: 400 }, Tier::Thorough => Plan::Skip }, case: case_json_q, min_classes: &[("json-depth-2", 5000), ("json-with-null", 5000), ("json-hazardous-key", 5000), ("json-output-variable-holds-an-earlier-document", 5000)] },
             Section { name: "json-deep", plan: |t| match t { Tier::Quick => Plan::Skip, Tier::Thorough => Plan::Random { cases: 4_000_000, max_len: 1500 } }, case: case_json_t, min_classes: &[] },
